@@ -6,6 +6,8 @@ raw values): the expected labels / values / links are known by construction.
 Parts:
   tree-*     E1 over the template grammar G with deviation-bounded field values, for
              several envelopes (subsets x compression x edition).
+  bitmap-*   bitmap chains: two constructs (all operator pairs 222/223/224/225/232, direct / reused / recalled bitmaps,
+             235000 / 237255 between them) and constructs inside a replication that runs twice within a subset.
   opmodel    E2: BFS to fixpoint over the operator-register model (abstract state = the
              reference interpreter's register record); every transition is executed on
              the real decoder followed by a probe suffix.
@@ -199,7 +201,48 @@ def replay_corpus(case):
 
 
 # ------------------------------------------------------------------------------------------
+def run_bitmap(args):
+    """decode-only over bitmap chains (two constructs, possibly different marker operators on the same elements)"""
+    from mc.engine import tree
+    structs, env = args
+    p = Partial()
+    st = tree.Stats()
+    for name, descs, queues, free in structs:
+        def body(ctx, descs=descs, queues=queues, free=free):
+            try:
+                b, spec, subs, notes = S.build_struct_message(ctx, descs, queues, free, nsub=env['nsub'],
+                                                              compressed=env['compressed'], variant_of_subset=[0] * env['nsub'])
+            except codec.RefError:
+                return {'skip': 1}
+            if notes:
+                return {'skip': 1}
+            stt = S.impl_decode(CC.decoder(), b)
+            if stt[0] == 'exc':
+                return {'viol': ('decode-raises:' + stt[1], stt[2][:160]), 'bytes': b, 'n': len(subs[0].links)}
+            return {'viol': S.compare_subsets(stt[1], subs), 'bytes': b, 'n': len(subs[0].links)}
+
+        def on_leaf(ctx, res, name=name, descs=descs, queues=queues, free=free):
+            p.n['exec'] += 1
+            if 'skip' in res:
+                p.n['envelope_skipped'] += 1
+                return
+            p.outcome((name.split('|')[0], res['n'], env['compressed']))
+            if res['viol']:
+                parts = name.split('|')
+                p.violation('%s|bitmap|%s' % (res['viol'][0], '|'.join(x.split('.')[0] for x in parts[1:] if x)),
+                            {'struct': [name, descs, queues, free], 'env': env, 'choices': ctx.vector()}, res['viol'][1],
+                            observed=res['bytes'])
+        tree.explore(body, 0, on_leaf, st)
+    p.n['nodes'] += st.nodes
+    p.n['edges'] += st.edges
+    return p
+
+
 def replay(part, case):
+    if part.startswith('bitmap'):
+        s_ = case['struct']
+        p = run_bitmap(([(s_[0], s_[1], [[tuple(x) for x in q] for q in s_[2]], s_[3])], case['env']))
+        return [{'sig': v['sig'], 'detail': v['detail']} for v in p.viol if v['case']['choices'] == case['choices']]
     if part.startswith('tree'):
         return CC.replay_tree(case)
     if part == 'tableB':
@@ -261,6 +304,13 @@ def main(tier, seed):
         shards = shards[k:] + shards[:k]
         p = merge_all(run_shards(CC.run_tree, [(s, env, bound, 'decode') for s in shards]))
         rep.add_part(name, p, bounds=dict(pargs, templates=len(pool), deviations=bound, **{k2: (v.hex() if isinstance(v, bytes) else v) for k2, v in env.items()}))
+
+    from mc.gen import bitmaps as BM
+    bstructs = list(BM.chain2(0 if tier == 'quick' else 1)) + list(BM.wrapped(BM.chain1(0), 2, True))
+    for bname, env in (('bitmap-u1', dict(nsub=1, compressed=False)), ('bitmap-c2', dict(nsub=2, compressed=True))):
+        use = bstructs if (tier == 'thorough' or bname == 'bitmap-u1') else bstructs[::4]
+        p = merge_all(run_shards(run_bitmap, [(s_, env) for s_ in split(use, 64)]))
+        rep.add_part(bname, p, bounds=dict(structures=len(use), **env))
 
     from mc.checks import opmodel
     p, info = opmodel.explore('decode', tier)
